@@ -274,7 +274,7 @@ Section WithHeap.
       | _ => Panic
       end in
     match item with
-    | VInvalid => Panic
+    | VInvalid => Ok VNil                  (* an undefined variable: Nil, like a missing member *)
     | VNil => Ok VNil
     | VArr l =>
       match hget h l with
